@@ -172,6 +172,7 @@ type stream struct {
 	werr       error
 	discard    bool // writes succeed into the void
 
+	rng     *simrt.RNG // per-stream: draws depend on this stream's own history only
 	cutAt   int64
 	cutKind string
 	cutDur  time.Duration
@@ -224,6 +225,7 @@ func (n *Net) newPipe(addr string, ws bool) *Pipe {
 	p := &Pipe{ID: len(n.pipes), WS: ws, Addr: addr, net: n, OpenedAt: n.S.Now()}
 	mk := func(dir string) *stream {
 		st := &stream{pipe: p, dir: dir, rnotify: make(chan struct{}, 1), cutAt: -1}
+		st.rng = simrt.NewRNG(n.S.Seed).Sub(fmt.Sprintf("net:c%d:%s", p.ID, dir))
 		st.Tap = &Tap{WS: ws, step: n.S.Step}
 		st.Tap.onFrameHdr = func(f Frame) { st.frameHdr(f) }
 		return st
@@ -305,8 +307,16 @@ func (e *Endpoint) SetDeadline(t time.Time) error {
 func (e *Endpoint) SetReadDeadline(t time.Time) error  { e.rdl.set(t); return nil }
 func (e *Endpoint) SetWriteDeadline(t time.Time) error { e.wdl.set(t); return nil }
 
+func (e *Endpoint) adopt() {
+	if e.side == "C" {
+		simrt.AdoptChild("C" + fmt.Sprint(e.pipe.ID))
+	} else {
+		simrt.Adopt("S" + fmt.Sprint(e.pipe.ID))
+	}
+}
+
 func (e *Endpoint) Read(b []byte) (int, error) {
-	simrt.Adopt(e.side + fmt.Sprint(e.pipe.ID))
+	e.adopt()
 	n := e.pipe.net
 	for {
 		n.mu.Lock()
@@ -348,7 +358,7 @@ func (e *Endpoint) Read(b []byte) (int, error) {
 }
 
 func (e *Endpoint) Write(b []byte) (int, error) {
-	simrt.Adopt(e.side + fmt.Sprint(e.pipe.ID))
+	e.adopt()
 	n := e.pipe.net
 	if e.pipe.WS && n.Cfg.ParkWrites {
 		simrt.Park("netwrite", e.name)
@@ -395,7 +405,7 @@ func (e *Endpoint) Write(b []byte) (int, error) {
 		}
 		lat := n.Cfg.LatMin
 		if n.Cfg.LatMax > n.Cfg.LatMin {
-			lat += time.Duration(n.rng.Uint64() % uint64(n.Cfg.LatMax-n.Cfg.LatMin+1))
+			lat += time.Duration(st.rng.Uint64() % uint64(n.Cfg.LatMax-n.Cfg.LatMin+1))
 		}
 		due := time.Now().Add(lat)
 		if k := len(st.segs); k > 0 && st.segs[k-1].due.After(due) {
@@ -584,10 +594,10 @@ func (n *Net) deliver(st *stream) {
 	sg := &st.segs[0]
 	k := len(sg.data)
 	if n.Cfg.ChunkMax > 0 {
-		if m := 1 + n.rng.Intn(n.Cfg.ChunkMax); m < k {
+		if m := 1 + st.rng.Intn(n.Cfg.ChunkMax); m < k {
 			// small chunks near segment starts (headers), at most ~8 pieces for the bulk
 			if k > 32 && m < k/8 {
-				m = k/8 + n.rng.Intn(k/8+1)
+				m = k/8 + st.rng.Intn(k/8+1)
 			}
 			k = m
 		}
@@ -870,7 +880,7 @@ func (l *Listener) Addr() net.Addr { return simAddr(l.addr) }
 // parks for the connections it creates.
 func (n *Net) Dialer(ws bool) func(ctx context.Context, network, addr string) (net.Conn, error) {
 	return func(ctx context.Context, network, addr string) (net.Conn, error) {
-		simrt.Adopt("dial:" + addr)
+		simrt.AdoptChild("dial:" + addr)
 		simrt.Park("dial", addr)
 		n.mu.Lock()
 		ev := DialEvent{Step: n.S.Step(), At: n.S.Now(), Addr: addr, G: simrt.Self(), Pipe: -1}
